@@ -230,31 +230,6 @@ Q q_sv_ctor_carray() // static_vector(c_array<T,NA>&&); NA == 0 uses the empty_c
 }
 
 // =====================================================================================================================
-// size-type boundary capacities (254/255/256): same checks with an ENUMERATED position BPOS (a symbolic position makes the
-// rotate/move loops over ~255 elements intractable); values stay symbolic
-// =====================================================================================================================
-#ifndef BPOS
-#define BPOS 0
-#endif
-Q q_sv_insert_l_at()
-{
-    M m; void* p = sv_make(m, NA); PV x = nd_pv();
-    u64 r = k_sv_insert_l(p, BPOS, x); u64 e = m.insert_fill(BPOS, 1, x);
-    vf_assert(r == e, "insert(pos,const&) returns an iterator to the inserted element"); sv_check(p, m);
-}
-Q q_sv_erase1_at()
-{
-    M m; void* p = sv_make(m, NA);
-    u64 r = k_sv_erase1(p, BPOS); u64 e = m.erase(BPOS, BPOS + 1);
-    vf_assert(r == e, "erase(pos) returns an iterator to the element after the erased one"); sv_check(p, m);
-}
-Q q_sv_resize2_to() // resize(BPOS, x): BPOS is the new size
-{
-    M m; void* p = sv_make(m, NA); PV x = nd_pv();
-    k_sv_resize2(p, BPOS, x); m.resize(BPOS, x); sv_check(p, m);
-}
-
-// =====================================================================================================================
 // inplace_vector
 // =====================================================================================================================
 Q q_iv_observe()
